@@ -179,6 +179,7 @@ type checkRun struct {
 	covers   int
 	coversUnknown int
 	sweepExcluded []string
+	trustedRepo   []string
 }
 
 func selectObligations(fr *FuncResult, prop string) (sel []*Obligation, skipped int) {
@@ -251,12 +252,19 @@ func cmdCheck(args []string) int {
 			fmt.Printf("contract target not found: %s\n", c.Key)
 			continue
 		}
+		if isTrusted(c) {
+			run.trustedRepo = append(run.trustedRepo, prog.relName(fn))
+			continue
+		}
 		jobs = append(jobs, job{fn, c})
 		seenFn[fn] = true
 	}
 	if *prop == "C10" {
 		// zero-annotation sweep: every function of the packages that handle client input
 		for _, fn := range sweepFunctions(prog) {
+			if c := prog.contractFor(fn); c != nil && isTrusted(c) {
+				continue
+			}
 			if !seenFn[fn] && !sweepExcluded(prog, fn) {
 				jobs = append(jobs, job{fn, prog.contractFor(fn)})
 				seenFn[fn] = true
@@ -458,6 +466,7 @@ func writeEvidence(run *checkRun, total, discharged, knownHits, violations int, 
 			"samples":                  samples,
 			"skipped_other_properties": run.skipped,
 			"sweep_excluded":           run.sweepExcluded,
+			"trusted_repo_contracts":   run.trustedRepo,
 			"cover_points_reachable":   run.covers,
 			"cover_points_inconclusive": run.coversUnknown,
 			"contract_files":           run.prog.contracts.Files,
@@ -728,4 +737,13 @@ func sweepExcludedNames(prog *Program) []string {
 		out = append(out, k+": "+sweepExclusions[k])
 	}
 	return out
+}
+
+func isTrusted(c *Contract) bool {
+	for _, cl := range c.Clauses {
+		if cl.Kind == "trusted" {
+			return true
+		}
+	}
+	return false
 }
